@@ -501,6 +501,7 @@ def _parse_schema(
             named_schemas[fullname] = parsed_schema
 
             parsed_schema["name"] = fullname
+            _keep_null_namespace(parsed_schema, fullname, namespace)
             parsed_schema["symbols"] = schema["symbols"]
 
         elif schema_type == "fixed":
@@ -515,10 +516,12 @@ def _parse_schema(
             named_schemas[fullname] = parsed_schema
 
             parsed_schema["name"] = fullname
+            _keep_null_namespace(parsed_schema, fullname, namespace)
             parsed_schema["size"] = schema["size"]
 
         elif schema_type == "record" or schema_type == "error":
             # records
+            parent_namespace = namespace
             namespace, fullname = schema_name(schema, namespace)
             if fullname in names:
                 raise SchemaParseException(f"redefined named type: {fullname}")
@@ -543,6 +546,7 @@ def _parse_schema(
                 )
 
             parsed_schema["name"] = fullname
+            _keep_null_namespace(parsed_schema, fullname, parent_namespace)
             parsed_schema["fields"] = fields
 
             # Hint that we have parsed the record
@@ -576,6 +580,14 @@ def _parse_schema(
             raise UnknownType(schema)
 
         return parsed_schema
+
+
+def _keep_null_namespace(parsed_schema, fullname, parent_namespace):
+    # A type in the null namespace that is nested inside a namespace has to keep
+    # saying so: the parsed schema is written to file headers and parsed again,
+    # and a bare name would then pick up the enclosing namespace
+    if parent_namespace and "." not in fullname:
+        parsed_schema["namespace"] = ""
 
 
 def parse_field(field, namespace, expand, names, named_schemas, ignore_default_error):
